@@ -16,7 +16,7 @@ def site_sample(F, s):
             "established": s.known[:6], "discharged": s.ok}
 
 
-def wrapper_sites(ctx, rr, fn_regex, callee, min_sites=1, label=None):
+def wrapper_sites(ctx, rr, fn_regex, callee, min_sites=1, label=None, props=None):
     """All census sites of `callee` inside functions matching fn_regex must be discharged."""
     F = ctx.F()
     S = [s for s in get_census(ctx) if path_matches(fn_regex, s.body.key) and s.cname == callee and not s.debug_only]
@@ -30,7 +30,7 @@ def wrapper_sites(ctx, rr, fn_regex, callee, min_sites=1, label=None):
         if not s.ok:
             rr.violate(key, "%s: the call `%s` is not dominated by `%s` on every path (established: %s)" % (
                 s.body.key, s.args_show, goal_show(s.goal), "; ".join(s.known[:6]) or "nothing"), s.loc,
-                {"required": goal_show(s.goal), "established": s.known[:12], "callee": callee})
+                {"required": goal_show(s.goal), "established": s.known[:12], "callee": callee}, props=props)
     return S
 
 
@@ -363,7 +363,7 @@ def r03_5(ctx, rr):
         rr.check(ok, "%s:rejects-above-len" % short_fn(b.key), "%s must panic when the start position exceeds the length" % b.key, b.span)
 
 
-@rule("R05.1", props=["C05", "C12"], floor=9, title="BitFieldVec/BitFieldSlice checked accessors validate index and value before *_unchecked")
+@rule("R05.1", props=["C05", "C12", "C13"], floor=9, title="BitFieldVec/BitFieldSlice checked accessors validate index and value before *_unchecked")
 def r05_1(ctx, rr):
     F = ctx.F()
     specs = [
@@ -377,8 +377,12 @@ def r05_1(ctx, rr):
         (r"^traits::indexed_dict::IndexedSeq::get$", "IndexedSeq::get_unchecked", None),
         (r"^<traits::bit_field_slice::BitFieldSliceIterator<'_, \w+, B> as std::iter::Iterator>::next$", "BitFieldSlice::get_unchecked", None),
     ]
+    # the atomic setters are also C13's entry points (a writer that cannot store a legal value, or stores an
+    # unvalidated one, breaks "every written element holds the value its writer stored")
+    def scope(fn):
+        return ["C05", "C12", "C13"] if "set_atomic" in fn else ["C05", "C12"]
     for fn, callee, val_arg in specs:
-        wrapper_sites(ctx, rr, fn, callee)
+        wrapper_sites(ctx, rr, fn, callee, props=scope(fn))
     # value validation: `value & mask == value` dominates the unchecked store, and mask is the structure's mask
     val_specs = [
         (r"^traits::bit_field_slice::BitFieldSliceMut::set$", "BitFieldSliceMut::set_unchecked", 2),
@@ -405,7 +409,7 @@ def r05_1(ctx, rr):
             key = "%s:value-fits" % short_fn(b.key)
             rr.ob(ok, key=key, sample={"fn": b.key, "call": show(F, n), "established": known[:6], "mask": how})
             if not ok:
-                rr.violate(key, "%s: `%s` is reachable with a value that was not validated against the bit-width mask (`value & mask == value`); %s" % (b.key, show(F, n), how), F.loc(n), {"established": known})
+                rr.violate(key, "%s: `%s` is reachable with a value that was not validated against the bit-width mask (`value & mask == value`); %s" % (b.key, show(F, n), how), F.loc(n), {"established": known}, props=scope(fn))
 
 
 def value_fits(W, K, v, b):
@@ -424,6 +428,12 @@ def value_fits(W, K, v, b):
                 if good:
                     return True, how
                 return False, "the mask used for validation is `%s`, not the structure's mask" % tshow(other)
+    # `value <= mask` is the same test for a low mask
+    for a in K.atoms:
+        if a[0] == "le" and a[3] == 0 and a[1] == v:
+            good, how = mask_term_ok(F, a[2], b)
+            if good:
+                return True, "value <= " + how
     return False, "no `value & mask == value` fact"
 
 
@@ -730,6 +740,9 @@ def goal_holds(K, goal):  # noqa: F811
         v = goal[1]
         for a in K.atoms:
             if a[0] == "ne" and ((a[1][0] == "op" and a[1][1] == "&" and v in (a[1][2], a[1][3]) and a[2] == v) or (a[2][0] == "op" and a[2][1] == "&" and v in (a[2][2], a[2][3]) and a[1] == v)) and a[3] == 0:
+                return True
+            # `mask < value` is the same condition for a low mask
+            if a[0] == "le" and a[3] <= -1 and a[2] == v and ((a[1][0] == "field" and a[1][2] == "mask") or width_mask_of(a[1]) is not None):
                 return True
         return False
     if goal[0] == "some-var-above":
